@@ -101,7 +101,7 @@ Proof. vm_compute. reflexivity. Qed.
    run really ends at the expected place *)
 Definition nv_world : world :=
   {| w_regs := fun n r => 1000 + Z.of_nat n; w_mem := fun n a => 7; w_zf := fun _ => true;
-     w_glob := fun _ _ => 555; w_xmm := fun n i => (1, 2); w_ctx := fun _ _ => 9 |}.
+     w_glob := fun _ _ => 555; w_xmm := fun n i => (1, 2); w_ctx := fun _ _ => 9; w_avx := true |}.
 Definition nv_regs (r : reg) : Z :=
   match r with RSP => 4096 + 8 | RBP => 4096 + 64 | RAX => 1 | RBX => 2 | RCX => 3 | RDX => 4 | RSI => 5 | RDI => 6
              | R8 => 8 | R9 => 9 | R10 => 10 | R11 => 11 | R12 => 12 | R13 => 13 | R14 => 14 | R15 => 15 end.
